@@ -53,6 +53,10 @@ func main() {
 			runTransport(*out, *seed, *tier)
 		case "nodemonitor":
 			runNodeMonitor(*out, *seed, *tier)
+		case "e2erace":
+			runE2ERace(*out, *seed, *tier)
+		case "e2erestart":
+			runE2ERestart(*out, *seed, *tier)
 		case "e2e":
 			runE2E(*out, *seed, *tier)
 		case "stress":
